@@ -596,7 +596,8 @@ EXPECT = ["C17.call_minus_put_is_forward", "C17.call_spread_is_call_combination_
           "C17.identity_and_log_representation_agree", "C17.representation_switch_is_not_sticky", "C17.average_between_path_extremes",
           "C17.default_time_is_first_jump_below_threshold", "C17.nth_to_default_times_nondecreasing_in_n",
           "C17.default_times_of_a_path_do_not_depend_on_the_paths_valued_before", "C17.product_reads_the_representation_it_was_last_updated_to",
-          "C17.rainbow_value_is_weighted_sorted_performance", "C17.valuing_a_product_leaves_the_path_unchanged", "C17.second_valuation_on_the_same_path_gives_the_same_value"]
+          "C17.rainbow_value_is_weighted_sorted_performance", "C17.valuing_a_product_leaves_the_path_unchanged", "C17.second_valuation_on_the_same_path_gives_the_same_value",
+          "C17.default_time_of_a_name_follows_its_jump_path_in_both_representations"]
 
 
 # stronger than the property (which only asks for a value between the extremes): reported, not claimed
@@ -604,7 +605,7 @@ ATTEMPTED = ["C17.attempted.average_is_the_time_weighted_mean_of_the_observation
 
 
 def main(tier):
-    bounds = {"histories_and_variants": 'default-time underlyings valuing two symbolic paths (2 times, 2 names) in a row; one underlying object shared by two products',
+    bounds = {"histories_and_variants": 'default-time underlyings valuing two symbolic paths (2 times, 2 names) in a row; one underlying object shared by two products; Rainbow on 2 assets; butterfly with any increasing strikes; default time of a name with path != jump path',
               "paths": "length <= 3 (quick) / 4 (thorough), <= 2 assets; strikes, barriers, thresholds, notionals, times arbitrary reals (times increasing)",
               "outside": "LookBack (raises by construction), Rainbow beyond 2 assets, CDS (C19), rate payoffs (Bond/Cap/Ratchet/Swaption), MaximumOfPerformances under LOG"}
     return run_check(PID, tier, harnesses(tier), expect=EXPECT, attempted=ATTEMPTED, bounds=bounds,
